@@ -72,13 +72,31 @@ func init() {
 				opt = res.GetCosmeticOption()
 			case "engine":
 				s, serr := filterlist.NewRuleStorage([]filterlist.RuleList{
-					&filterlist.StringRuleList{ID: 1, RulesText: text + "\n"},
+					&filterlist.StringRuleList{ID: 1, RulesText: text + "\n##.g\nexample.org##.s\n"},
 				})
 				must(serr)
 				e := urlfilter.NewEngine(s)
 				req := rules.NewRequest("http://example.org/", "", rules.TypeDocument)
 				res := e.MatchRequest(req)
 				opt = res.GetCosmeticOption()
+				// what the option means at the cosmetic engine, on an engine that has already answered for the same
+				// hostname with other options (an ordinary page first): the styles follow THIS option
+				has := func(l []string, x string) bool {
+					for _, y := range l {
+						if y == x {
+							return true
+						}
+					}
+					return false
+				}
+				for _, o := range []rules.CosmeticOption{rules.CosmeticOptionAll, rules.CosmeticOptionAll &^ rules.CosmeticOptionJS, opt, rules.CosmeticOptionAll, opt} {
+					cr := e.GetCosmeticResult("example.org", o)
+					css := o&rules.CosmeticOptionCSS != 0
+					gen := css && o&rules.CosmeticOptionGenericCSS != 0
+					if has(cr.ElementHiding.Generic, ".g") != gen || has(cr.ElementHiding.Specific, ".s") != css {
+						return fmt.Sprint(uint32(opt)) + fmt.Sprintf("!COSMETIC-RESULT-IGNORES-OPTION:%d", uint32(o)), mi, rule.Whitelist
+					}
+				}
 			}
 			st.Inc("mode_" + mode)
 			if rule.Whitelist {
